@@ -142,6 +142,8 @@ def run(F, chk):
     check_refusals(F, W4)
     check_time_split(F, W2)
     check_convert(F, W3)
+    W5 = chk.rule('W5', 'writer chain: a local copy of a message/header field is never modified before it is written (fields are exported verbatim)')
+    check_verbatim_copies(F, W5)
 
 
 def check_endian_bit(F, W1):
@@ -323,3 +325,52 @@ def check_refusals(F, W4):
         if refusals == 0:
             W4.ok(sample={'writer': name, 'locally_constructed_errors': 0, 'errors': 'only propagated from the underlying writer'})
     W4.floor('writer functions returning Result', n_fns, 4)
+
+
+# ---------------------------------------------------------------------------------------------
+# W5: what is written is the field, not a touched-up copy of it
+
+def check_verbatim_copies(F, W5):
+    """In the writer chain a local that starts as a plain copy of a message/header field (`let mut ecu = msg.ecu`) must not
+    be modified (mutable borrow of it or of a part of it, store into a part of it) before it reaches a write sink or the
+    header aggregate: the round trip has to reproduce the field byte for byte, "clean-ups" of ids, counters or payload
+    change what a re-read yields."""
+    n = 0
+    for name in WRITERS:
+        b = F.get(name)
+        if b is None:
+            continue
+        cfg = CFG(b)
+        E = ExprBuilder(cfg)
+        W5.fn(name)
+        for l, ds in cfg.defs.items():
+            if len(ds) != 1 or ds[0][1] == 'call':
+                continue
+            rv = ds[0][2].rv
+            if rv['k'] != 'use':
+                continue
+            o = Operand(rv['o'])
+            if o.is_const or o.place is None:
+                continue
+            fl = [e for e in o.place.p if e['k'] == 'f' and e.get('o', '').startswith('adlt::dlt::')]
+            if not fl:
+                continue
+            n += 1
+            W5.sites += 1
+            touched = None
+            for blk in b.blocks:
+                if blk.cleanup:
+                    continue
+                for s in blk.stmts:
+                    if s.k != 'assign':
+                        continue
+                    if s.place.l == l and s.place.p and not s.place.has_deref():
+                        touched = (b.loc(s.sp), 'a part of it is overwritten')
+                    if s.rv['k'] in ('ref', 'rawptr') and s.rv.get('mut') and s.rv['p']['l'] == l:
+                        touched = (b.loc(s.sp), 'it is borrowed mutably')
+            if touched:
+                W5.violation(('written-copy-modified', name, fl[-1]['n']), '%s copies the field `%s` into a local and modifies the copy (%s at %s) before it is written: the exported bytes differ from the message' %
+                             (name, fl[-1]['n'], touched[1], touched[0]), where=touched[0])
+            else:
+                W5.ok(sample={'writer': name, 'field_copy': fl[-1]['n'], 'modified': False})
+    W5.floor('plain copies of message/header fields in the writer chain', n, 3)
